@@ -29,43 +29,43 @@ pub struct RawSqe {
 
 #[repr(C)]
 #[derive(Clone, Copy, Default)]
-struct SqOff {
-    head: u32,
-    tail: u32,
-    ring_mask: u32,
-    ring_entries: u32,
-    flags: u32,
-    dropped: u32,
-    array: u32,
-    resv1: u32,
-    user_addr: u64,
+pub struct SqOff {
+    pub head: u32,
+    pub tail: u32,
+    pub ring_mask: u32,
+    pub ring_entries: u32,
+    pub flags: u32,
+    pub dropped: u32,
+    pub array: u32,
+    pub resv1: u32,
+    pub user_addr: u64,
 }
 #[repr(C)]
 #[derive(Clone, Copy, Default)]
-struct CqOff {
-    head: u32,
-    tail: u32,
-    ring_mask: u32,
-    ring_entries: u32,
-    overflow: u32,
-    cqes: u32,
-    flags: u32,
-    resv1: u32,
-    user_addr: u64,
+pub struct CqOff {
+    pub head: u32,
+    pub tail: u32,
+    pub ring_mask: u32,
+    pub ring_entries: u32,
+    pub overflow: u32,
+    pub cqes: u32,
+    pub flags: u32,
+    pub resv1: u32,
+    pub user_addr: u64,
 }
 #[repr(C)]
 #[derive(Clone, Copy, Default)]
-struct Params {
-    sq_entries: u32,
-    cq_entries: u32,
-    flags: u32,
-    sq_thread_cpu: u32,
-    sq_thread_idle: u32,
-    features: u32,
-    wq_fd: u32,
-    resv: [u32; 3],
-    sq_off: SqOff,
-    cq_off: CqOff,
+pub struct Params {
+    pub sq_entries: u32,
+    pub cq_entries: u32,
+    pub flags: u32,
+    pub sq_thread_cpu: u32,
+    pub sq_thread_idle: u32,
+    pub features: u32,
+    pub wq_fd: u32,
+    pub resv: [u32; 3],
+    pub sq_off: SqOff,
+    pub cq_off: CqOff,
 }
 
 pub struct RawRing {
@@ -299,4 +299,100 @@ pub fn sqpoll_timeout_pair_probe(flags: u32, tries: usize) -> Option<(u128, Vec<
         }
     }
     best
+}
+
+/// The parameters the kernel fills in for (entries, flags): an independent io_uring_setup whose
+/// ring is closed again at once.  The offsets depend only on the sizes and flags.
+pub fn raw_params(entries: u32, flags: u32, sq_thread_idle: u32) -> Option<Params> {
+    unsafe {
+        let mut p = Params::default();
+        p.flags = flags;
+        p.sq_thread_idle = sq_thread_idle;
+        let fd = libc::syscall(libc::SYS_io_uring_setup, entries, &mut p as *mut Params) as i32;
+        if fd < 0 {
+            return None;
+        }
+        libc::close(fd);
+        Some(p)
+    }
+}
+
+impl Params {
+    pub fn cqe_size(&self) -> u64 {
+        if self.flags & (1 << 11) != 0 {
+            32
+        } else {
+            16
+        }
+    }
+    pub fn sqe_size(&self) -> u64 {
+        if self.flags & (1 << 10) != 0 {
+            128
+        } else {
+            64
+        }
+    }
+    /// bytes of the SQ ring mapping the kernel's offsets require
+    pub fn need_sq_ring(&self) -> u64 {
+        self.sq_off.array as u64 + 4 * self.sq_entries as u64
+    }
+    pub fn need_cq_ring(&self) -> u64 {
+        self.cq_off.cqes as u64 + self.cq_entries as u64 * self.cqe_size()
+    }
+    pub fn need_sqes(&self) -> u64 {
+        self.sq_entries as u64 * self.sqe_size()
+    }
+}
+
+/// io_uring mappings of this process as /proc/self/maps shows them: (start, end, file offset)
+pub fn uring_maps() -> Vec<(u64, u64, u64)> {
+    let m = std::fs::read_to_string("/proc/self/maps").unwrap_or_default();
+    let mut v = Vec::new();
+    for l in m.lines().filter(|l| l.contains("io_uring")) {
+        let mut it = l.split_whitespace();
+        let (Some(range), _, Some(off)) = (it.next(), it.next(), it.next()) else { continue };
+        let Some((a, b)) = range.split_once('-') else { continue };
+        if let (Ok(a), Ok(b), Ok(o)) = (u64::from_str_radix(a, 16), u64::from_str_radix(b, 16), u64::from_str_radix(off, 16)) {
+            v.push((a, b, o));
+        }
+    }
+    v
+}
+
+/// Read-only libc-side view of the ring memory a wrapper-made ring lives in (found through
+/// /proc/self/maps: the io_uring mapping at file offset 0; exactly one ring may be alive).
+pub struct RingView {
+    base: *const u8,
+    pub p: Params,
+}
+impl RingView {
+    pub fn find(p: Params) -> Option<RingView> {
+        let maps = uring_maps();
+        let rings: Vec<&(u64, u64, u64)> = maps.iter().filter(|m| m.2 == 0).collect();
+        if rings.len() != 1 {
+            return None;
+        }
+        Some(RingView { base: rings[0].0 as *const u8, p })
+    }
+    fn word(&self, off: u32) -> u32 {
+        unsafe { (*(self.base.add(off as usize) as *const std::sync::atomic::AtomicU32)).load(std::sync::atomic::Ordering::Acquire) }
+    }
+    pub fn sq_flags(&self) -> u32 {
+        self.word(self.p.sq_off.flags)
+    }
+    pub fn sq_head(&self) -> u32 {
+        self.word(self.p.sq_off.head)
+    }
+    pub fn sq_tail(&self) -> u32 {
+        self.word(self.p.sq_off.tail)
+    }
+    pub fn cq_head(&self) -> u32 {
+        self.word(self.p.cq_off.head)
+    }
+    pub fn cq_tail(&self) -> u32 {
+        self.word(self.p.cq_off.tail)
+    }
+    pub fn cq_overflow(&self) -> u32 {
+        self.word(self.p.cq_off.overflow)
+    }
 }
